@@ -99,13 +99,24 @@ Record gstate := {
   g_threads : Z;            (* BLAS/OpenMP pool size, fixed when the process starts *)
   g_ct_default : list Z;    (* contents of the shared default list warnings=[] of CalTRACKHourlyModelResults *)
   g_warm : list family;     (* code paths that have run *)
+  g_jit : list (family * Z); (* the numba JIT cache (in memory and on disk, NUMBA_CACHE_DIR): for each family whose code
+                               has been compiled, the settings profile of the fit that compiled it -- that fit's view of
+                               every module-level value is what numba froze into the compiled functions *)
   g_models : list res;      (* result of every operation so far, oldest first *)
   g_objs : list hobj        (* the HourlyModel objects constructed so far (NewHourly, FromJson), oldest first *)
 }.
 
-Definition init (pid threads : Z) : gstate :=
-  {| g_rng := rng_start pid; g_threads := threads; g_ct_default := []; g_warm := []; g_models := [];
+(* a process starts with whatever JIT cache earlier processes left on disk *)
+Definition init_cache (pid threads : Z) (cache : list (family * Z)) : gstate :=
+  {| g_rng := rng_start pid; g_threads := threads; g_ct_default := []; g_warm := []; g_jit := cache; g_models := [];
      g_objs := [] |}.
+Definition init (pid threads : Z) : gstate := init_cache pid threads [].
+
+Definition fam_eqb (a b : family) : bool :=
+  match a, b with Daily, Daily | Billing, Billing | Hourly, Hourly | CalTrack, CalTrack => true | _, _ => false end.
+(* the first fit of a family compiles its functions; later fits find them compiled *)
+Definition jit_populate (f : family) (cfg : Z) (c : list (family * Z)) : list (family * Z) :=
+  if existsb (fun p => fam_eqb (fst p) f) c then c else c ++ [(f, cfg)].
 
 Inductive op :=
 | FitDaily (d cfg : Z)
@@ -124,11 +135,12 @@ Inductive op :=
 
 Definition with_result (s : gstate) (r : rng) (w : list family) (x : res) : gstate * res :=
   ({| g_rng := r; g_threads := g_threads s; g_ct_default := g_ct_default s; g_warm := w;
+      g_jit := match x with RFit f _ cfg _ _ => jit_populate f cfg (g_jit s) | _ => g_jit s end;
       g_models := g_models s ++ [x]; g_objs := g_objs s |}, x).
 
 Definition with_objs (p : gstate * res) (objs : list hobj) : gstate * res :=
   ({| g_rng := g_rng (fst p); g_threads := g_threads (fst p); g_ct_default := g_ct_default (fst p);
-      g_warm := g_warm (fst p); g_models := g_models (fst p); g_objs := objs |}, snd p).
+      g_warm := g_warm (fst p); g_jit := g_jit (fst p); g_models := g_models (fst p); g_objs := objs |}, snd p).
 
 (* to_json() of an object re-runs the settings' after-validator (SerializeModel(settings=self.settings)): with a seed
    in the settings nothing changes; without, the object's _seed is replaced by a new draw *)
